@@ -163,7 +163,7 @@ def check_temperature(kr, be, tres, tnames):
             continue
         if abs(y - (x * K + C)) > stage_bound(be, x, K, C):
             kr.violation(be, f"temperature conversion {tnames[u]} -> {tnames[to]} deviates from the physical formula beyond rounding", op, r,
-                         f"{float(x * K + C)} +- {float(stage_bound(be, x, K, C))}")
+                         f"{kc.ff(x * K + C)} +- {kc.ff(stage_bound(be, x, K, C))}")
     return
 
 
@@ -199,7 +199,7 @@ def check_two_step(kr, be, tres, tnames, ctx):
                 kr.violation(be, "specification formulas are not mutually inverse (harness error)", op, "")
             if abs(z - x) > b:
                 kr.violation(be, f"temperature conversions {tnames[u]} -> {tnames[v]} -> {tnames[u]} are not mutually inverse within rounding",
-                             f"tconv {a} {u} {v} ; {op}", r, f"{float(x)} +- {float(b)}")
+                             f"tconv {a} {u} {v} ; {op}", r, f"{kc.ff(x)} +- {kc.ff(b)}")
         else:
             K3, C3 = FORMULAS[(tnames[u], tnames[w])]
             d = tres[(a, u, w)]
